@@ -100,3 +100,88 @@ def branch_facts(f, site_bb):
                     continue
                 out |= implied(f, c, truth)
     return out
+
+
+def atoms(f, D, depth=0):
+    """all comparison / call atoms a boolean term is built from (through `!`, stored booleans and the joins of
+    short-circuit `&&` / `||`, including the tests that select the join's arms)"""
+    D = mir.strip_refs(D)
+    if depth > 10:
+        return {D}
+    if D[0] == "un" and D[1] == "Not":
+        return atoms(f, D[2], depth + 1)
+    if _const_bool(D) is not None:
+        return set()
+    if D[0] == "phi" and isinstance(D[1], tuple) and isinstance(D[1][0], int) and not any(lp.header == D[1][0] for lp in f.loops()):
+        bb = D[1][0]
+        reach = f.reachable()
+        preds = [p for p in f.pred[bb] if p in reach]
+        out = set()
+        for arm in D[2]:
+            out |= atoms(f, arm, depth + 1)
+        for p in preds:
+            x, nxt = p, bb
+            for _ in range(24):
+                t = f.term(x)
+                if t["k"] == "switch" and _side(f, x, nxt) is not None:
+                    out |= atoms(f, f.operand(t["discr"], f.end_point(x)), depth + 1)
+                ps = [q for q in f.pred[x] if q in reach]
+                if len(ps) != 1:
+                    break
+                nxt, x = x, ps[0]
+        return out
+    return {D}
+
+
+def eval3(f, D, assign, depth=0):
+    """three-valued evaluation of a boolean term under a partial assignment {atom term: bool}; None = unknown"""
+    D = mir.strip_refs(D)
+    if depth > 12:
+        return None
+    if D in assign:
+        return assign[D]
+    cb = _const_bool(D)
+    if cb is not None:
+        return cb
+    if D[0] == "un" and D[1] == "Not":
+        v = eval3(f, D[2], assign, depth + 1)
+        return None if v is None else (not v)
+    if D[0] == "bin" and D[1] in ("BitOr", "BitAnd", "BitXor", "Eq", "Ne"):
+        a, b = eval3(f, D[2], assign, depth + 1), eval3(f, D[3], assign, depth + 1)
+        if D[1] == "BitOr":
+            if a is True or b is True:
+                return True
+            return False if (a is False and b is False) else None
+        if D[1] == "BitAnd":
+            if a is False or b is False:
+                return False
+            return True if (a is True and b is True) else None
+        if a is None or b is None:
+            return None
+        return (a != b) if D[1] in ("BitXor", "Ne") else (a == b)
+    return None
+
+
+def reach_under(f, assign, start=0):
+    """blocks reachable from `start` when every bool switch whose discriminant is decided by the partial assignment
+    takes the decided side only"""
+    seen, work = set(), [start]
+    while work:
+        b = work.pop()
+        if b in seen:
+            continue
+        seen.add(b)
+        t = f.term(b)
+        if t["k"] == "switch" and not [v for v, _ in t["targets"] if v != 0]:
+            v = eval3(f, f.operand(t["discr"], f.end_point(b)), assign)
+            zero = [tb for vv, tb in t["targets"] if vv == 0]
+            if v is True:
+                work.append(t["otherwise"])
+                continue
+            if v is False and zero:
+                work.append(zero[0])
+                continue
+        for s in f.succ[b]:
+            # unwind edges are not followed
+            work.append(s)
+    return seen
